@@ -81,6 +81,8 @@ func c03(c *Ctx) {
 	}
 	r.Rule("C03.early-bytes", "the byte stream handed to the frame reader is the peer's stream: bytes buffered by the HTTP server before the upgrade are replayed first and completely (same rule as C17.brnetconn)")
 	c.borrow(c17, map[string]string{"C17.brnetconn": "C03.early-bytes"})
+	r.Rule("C03.control-frames", "control frames of every legal size between fragments are read and dispatched to their handler without touching the message state (same rules as C08.read-buffer, C08.dispatch)")
+	c.borrow(c08, map[string]string{"C08.read-buffer": "C03.control-frames", "C08.dispatch": "C03.control-frames"})
 	r.Rule("C03.inflater-exclusive", "an inflater returned to flateReaderPool is forgotten by the wrapper in the same step (never used or returned twice), so two connections never share one decompressor")
 	r.Assume("bufio.Reader.Read returns 0 <= n <= len(p)")
 
